@@ -25,8 +25,10 @@ TEXT = {
  "C11": ("whole-library simulation (ASan build for most runs): threads store values under seeded key subsets that leave earlier tree branches empty, keys with/without destructors and NULL values mixed, termination by return / myth_exit from a nested frame / cancellation from another thread; oracle = multiset of (destructor function, value) calls equals the model exactly once each, no call with a foreign value or for a key without destructor, no crash", "5.C11"),
  "C15": ("simulated part: seeded init/fini histories (1..8 cycles per run, 1..64 workers requested through a global attribute object, the environment, or implicit first use; 2-3 native contexts racing the first use) under seeded schedules in which the main thread is stolen so that myth_fini runs on another worker; oracle = worker count and worker indices from every thread, exactly n-1 workers spawned per initialisation, all worker coroutines returned after fini, next init works. Input part (input generation, not schedule search): seeded malformed strings for MYTH_NUM_WORKERS / MYTH_WORKER_NUM / MYTH_DEF_STKSIZE / MYTH_BIND_WORKERS / MYTH_CPU_LIST in fresh processes with real worker threads; oracle = exit status 0, documented worker count, bounded time", "5.C15"),
  "C20": ("whole-library simulation against a virtual clock (coarse: reads that do not advance; forward jumps): myth_sleep/usleep/nanosleep with durations 0..seconds and malformed requests, timed lock with past/present/future deadlines against a holder thread, timed join against running/finished targets, sibling threads counting progress; oracle = virtual elapsed >= requested, EINVAL for malformed, timeout only after the last clock value handed to the call exceeded the deadline, success when the mutex was free throughout / the target had published its result before the call, a sleeper on the only worker lets a runnable sibling progress", "5.C20"),
+ "C17": ("whole-library simulation of myth_create_join_many_ex / _various_ex (n incl. 0, all stride combinations incl. shared function slot and strides larger than the element, results/ids/attrs NULL or given, per-item attributes, nested call from a thread) and, through a C++ harness, of mtbb::task_group (up to 40 run() calls > inline capacity 8, nested groups, reuse) and mtbb::parallel_for (first,last), (first,last,step) and the grain-size form incl. empty, single-element and reversed ranges; oracle = per-item counters, argument addresses, result/id slots, guard bytes, nothing for n=0 / empty range, i.e. the sequential loop", "5.C17"),
 }
 NOTE = {
+ "C17": "stride arithmetic is input-driven; grain size 0 is not generated; range-object parallel_for (needs TBB headers) is not built",
  "C15": "the configuration-string half is input generation in fresh processes (natural timing); values that are well formed but unusable (tiny stacks, thousands of workers, numeric overflow) are never generated",
  "C20": "backward clock jumps are not injected (the property is unfalsifiable against them); durations above ~3 s are not generated",
  "C10": "index arithmetic is input-driven; the simulator contributes migration and the concurrent create/delete interleavings",
